@@ -38,10 +38,17 @@ def run(ctx, proto, st=None, I=None):
     if proto.post_ctor:
         proto.post_ctor(I, st, o)
     out = [("__init__", o, mark0, len(I.events))]
+    I._reader_changes = []
     for meth, args, kwargs in proto.steps:
         m0 = len(I.events)
+        # (a lazily computed cache going from None to its value is not a change of fitted state)
+        before = {k: v.term for k, v in st.heap.get(o.obj.id, {}).items() if v.kind not in ("none", "undef")} if getattr(o, "obj", None) is not None else {}
         r = ctx.call_method(I, st, o, meth, *args, **kwargs)
         out.append((meth, r, m0, len(I.events)))
+        if meth not in ("fit", "fit_transform", "set_params", "partial_fit") and getattr(o, "obj", None) is not None:
+            after = st.heap.get(o.obj.id, {})
+            changed = sorted(k for k, t in before.items() if k in after and after[k].term != t and k.endswith("_") and not k.startswith("_"))
+            I._reader_changes.append((meth, changed))
     return I, st, o, out
 
 
@@ -142,7 +149,7 @@ def decomposition_protocols():
     # precomputed kernels: the caller's arrays are used as kernels directly
     for center in (False, True):
         K, Y = arr("Ktrain", "N", "N"), arr("Y", "N", "P")
-        steps = [("fit", (K, Y), {}), ("transform", (arr("Ktest", "V", "N"),), {}), ("predict", (arr("Ktest2", "V", "N"),), {})]
+        steps = [("fit", (K, Y), {}), ("transform", (arr("Ktest", "V", "N"),), {}), ("predict", (arr("Ktest2", "V", "N"),), {}), ("score", (K, Y), {})]  # (with a precomputed kernel only the training kernel is a valid score input)
         out.append(Proto(f"KernelPCovR[precomputed kernel,center={center}]", "skmatter.decomposition.KernelPCovR", {"mixing": scalar("alpha", 0, 1, True, True), "n_components": integer("K"), "svd_solver": "full", "center": center, "kernel": "precomputed"}, steps, assume=assume_default, order=[("K", "<=", "N")]))
     X, Y = XY(y1d=True)
     out.append(Proto("KernelPCovR[1-D y]", "skmatter.decomposition.KernelPCovR", {"mixing": scalar("alpha", 0, 1, True, True), "n_components": integer("K"), "svd_solver": "full"}, [("fit", (X, Y), {}), ("predict", (arr("Xv", "V", "M"),), {})], assume=assume_default, order=[("K", "<=", "N")]))
